@@ -182,14 +182,15 @@ example :
 
 /-! ### the automatic trigger -/
 
-/-- **auto_trigger_partial**: when a tick observes the change counter exactly at the threshold, a snapshot starts -/
-theorem auto_trigger_partial (thr : Nat) : Sugar.Persist.autoFires thr thr = true := by simp [Sugar.Persist.autoFires]
+/-- **The automatic snapshot fires once the threshold is reached**: a tick that observes the change
+    counter at or above the threshold starts a snapshot — for every counter value and threshold
+    (the equality test that let an overshooting counter never fire was repaired upstream; the full
+    statement now holds). -/
+theorem auto_trigger (n thr : Nat) (h : n ≥ thr) : Sugar.Persist.autoFires n thr = true := by
+  simp [Sugar.Persist.autoFires, h]
 
-/-- **the full statement fails**: once the counter has passed the threshold between two ticks no tick ever
-    fires again (the test is equality) — for every overshoot -/
-theorem auto_trigger_overshoot_never_fires (thr n : Nat) (h : n > thr) : Sugar.Persist.autoFires n thr = false := by
+/-- … and only then: below the threshold no tick starts a snapshot -/
+theorem auto_trigger_only_at_or_above (n thr : Nat) (h : n < thr) : Sugar.Persist.autoFires n thr = false := by
   simp [Sugar.Persist.autoFires]; omega
-
-theorem auto_trigger_overshoot_witness : Sugar.Persist.autoFires 4 3 = false := by decide
 
 end Sugar.Props.C03
